@@ -76,7 +76,7 @@ hc = os.path.join(HERE, "hooks_commits.txt")
 if os.path.exists(hc):
     hooks_commits = [l.strip() for l in open(hc) if l.strip()]
 m = {"version": 1, "setup_cmd": "./setup.sh",
-     "hooks": {"guard": "verif", "enable": "go build -tags verif (harness module replaces github.com/alttpo/snes => /repo)",
+     "hooks": {"guard": "verif", "enable": "not required any more: the harness (module verif/harness, replace github.com/alttpo/snes => /repo) is built WITHOUT the tag and observes the library through its public API only; the one guarded file of commit 22f7bb3 (asm/verif_hooks.go, Emitter.VerifState, add-only) remains in /repo as an inert debugging aid",
                "baseline_off_cmd": "cd /repo && go test -json -vet=off -count=1 -timeout 25m ./...",
                "source_commits": hooks_commits, "add_only": True},
      "engines": [{"name": "tlc", "path": "/verif/spec", "serves_properties": sorted(CHECKS),
